@@ -330,6 +330,13 @@ fn oracle(c: &Case, rec: &Rec) -> R {
 }
 
 pub fn checks() -> Vec<CheckDef> {
+    let mut v = checks_structured();
+    #[cfg(feature = "full")]
+    v.push(super::fuzzstage::check("C16", "decode_any", "libfuzzer-decode-any", 60_000));
+    v
+}
+
+fn checks_structured() -> Vec<CheckDef> {
     vec![enum_check(
         "decode-robustness",
         "enumerated mutations of honest encodings of every Deserialize type of both crates and the public element codecs (all N): every length-prefix position x {0, n-1, n+1, 2^32, 2^60, 2^64-1}; atoms x invalid-encoding table and random bytes; truncation at and inside atom boundaries; extension by 1-64 bytes; tag / byte atoms x small values; random strings of length 0-16 KiB; honest prefix + random tail (quick samples atom positions of big types, thorough enumerates all); each case decoded in an isolated worker process under a tracking allocator; oracle: the worker returns Ok or Err - no panic (caught, message reported), no process death, largest single allocation request <= 64 KiB + 32*len(input); distinct by (type, mutation)",
@@ -338,6 +345,16 @@ pub fn checks() -> Vec<CheckDef> {
         gen,
         oracle,
     )]
+}
+
+pub fn gen_corpus_quiet(dir: &str) {
+    let _ = std::fs::create_dir_all(dir);
+    for (id, t) in registry().iter().enumerate() {
+        let img = honest_image(id, 0);
+        let mut b = vec![id as u8];
+        b.extend_from_slice(&img.bytes);
+        let _ = std::fs::write(format!("{}/{:03}-{}", dir, id, t.name.replace(|c: char| !c.is_ascii_alphanumeric(), "_")), b);
+    }
 }
 
 /// Honest encodings of every type, prefixed by the type id byte, as a libFuzzer seed corpus.
